@@ -400,7 +400,7 @@ var checkBig = ev.Register("graph-structured", func(c *BigCase) ev.Outcome {
 	if err := coreCheck(adj, c.Root, nil, false); err != nil {
 		return ev.Outcome{Err: fmt.Errorf("%s graph with %d nodes: %w", c.Kind, c.N, err)}
 	}
-	return ev.OK(c.N >= 1024, "structured-"+c.Kind)
+	return ev.OK(c.N >= 64, "structured-"+c.Kind)
 })
 
 // ---------------------------------------------------------------- NodeMarks histories
@@ -1024,7 +1024,11 @@ func TestSmallExhaustive(t *testing.T) {
 func TestRandomGraphs(t *testing.T) {
 	ev.Rule(rule)
 	ev.Rapid(t, "c18-graphs", 1500, 80000, func(rt *rapid.T) {
-		c := &GCase{Adj: drawAdj(rt, 60)}
+		maxN := 60
+		if rapid.IntRange(0, 9).Draw(rt, "larger") == 0 {
+			maxN = 200
+		}
+		c := &GCase{Adj: drawAdj(rt, maxN)}
 		c.Root = rapid.IntRange(0, len(c.Adj)-1).Draw(rt, "root")
 		if rapid.Bool().Draw(rt, "weighted") {
 			for _, l := range c.Adj {
@@ -1041,9 +1045,11 @@ func TestRandomGraphs(t *testing.T) {
 
 func TestStructured(t *testing.T) {
 	ev.Rule(rule)
-	ev.Rapid(t, "c18-structured", 12, 320, func(rt *rapid.T) {
-		c := &BigCase{Kind: rapid.SampledFrom([]string{"path", "cycle", "tree", "layers", "backedges", "reversed-path"}).Draw(rt, "kind")}
-		switch rapid.IntRange(0, 3).Draw(rt, "size") {
+	ev.Rapid(t, "c18-structured", 40, 640, func(rt *rapid.T) {
+		c := &BigCase{Kind: rapid.SampledFrom([]string{"doubled-path", "two-cycles-chain", "fan", "path", "cycle", "tree", "layers", "backedges", "reversed-path"}).Draw(rt, "kind")}
+		switch rapid.IntRange(0, 4).Draw(rt, "size") {
+		case 4: // around the 64-component mark and other word sizes
+			c.N = rapid.SampledFrom([]int{63, 64, 65, 66, 67, 100, 127, 128, 129, 130, 200, 255, 256, 257}).Draw(rt, "wordsize")
 		case 0:
 			c.N = rapid.SampledFrom([]int{1023, 1024, 1025, 2047, 2048, 2049, 4096, 4097, 32768, 32769, 65536, 65537}).Draw(rt, "boundary")
 		case 1:
